@@ -26,21 +26,30 @@ const STYLES: [(&str, &str); 8] = [
 fn schema_for(n: &str, enum_ok: bool) -> String {
     let e = if enum_ok { format!("enum E {{ {} ZZZ }}\n", n) } else { "enum E { ZZZ }\n".to_string() };
     format!(
-        "{}input In {{ {n}: Int plain: Int }}\ninput One @oneOf {{ {n}: Int other: String }}\ntype Inner {{ plain: Int }}\ntype Query {{ {n}: Int plain: Int inner: Inner e: E f(i: In, o: One): Int }}\n",
+        "{}input In {{ {n}: Int plain: Int }}\ninput One @oneOf {{ {n}: Int other: String }}\ntype Inner {{ plain: Int }}\ntype Inner2 {{ {n}: Int }}\ntype Query {{ {n}: Int plain: Int inner: Inner inner2: Inner2 e: E f(i: In, o: One): Int }}\n",
         e,
         n = n
     )
 }
 
+/// the name in another case style (same snake_case form, different spelling): as an ALIAS of the field itself it is
+/// still the response key
+fn case_variant(n: &str) -> Option<String> {
+    use heck::{ToSnakeCase, ToUpperCamelCase};
+    let cands = [n.to_upper_camel_case(), n.to_snake_case(), n.to_snake_case().to_uppercase()];
+    cands.into_iter().find(|v| v != n && !v.is_empty() && v.to_snake_case() == n.to_snake_case() && graphql_parser::parse_query::<String>(&format!("{{ {}: x }}", v)).is_ok())
+}
+
 fn query_for(n: &str) -> String {
-    format!("query Q(${n}: Int, $i: In, $o: One, $e: E) {{ {n} aliased: inner {{ {n}: plain }} e }}\n", n = n)
+    let variant = case_variant(n).map(|v| format!(" variant: inner2 {{ {}: {} }}", v, n)).unwrap_or_default();
+    format!("query Q(${n}: Int, $i: In, $o: One, $e: E) {{ {n} aliased: inner {{ {n}: plain }}{variant} e }}\n", n = n, variant = variant)
 }
 
 pub fn run(a: &Args) -> i32 {
     let mut rep = Report::new(
         "C11",
         a,
-        "every strict and reserved Rust keyword of editions 2015-2021 (51 words, reference list written from the Rust Reference, independent of the code's table) and 8 case-style samples x positions {response field, alias, variable, input-object field, @oneOf member, enum value} x normalization {none, rust}; each (name, normalization) is one generated module compiled in a consumer crate; wire keys observed by deserializing a payload keyed by the exact GraphQL names and serializing variables; a case = one (name, position, normalization); exhaustive; non-trivial = the name is a keyword",
+        "every strict and reserved Rust keyword of editions 2015-2021 (51 words, reference list written from the Rust Reference, independent of the code's table) and 8 case-style samples x positions {response field, alias, alias that is the field's own name in another case style, variable, input-object field, @oneOf member, enum value} x normalization {none, rust}; each (name, normalization) is one generated module compiled in a consumer crate; wire keys observed by deserializing a payload keyed by the exact GraphQL names and serializing variables; a case = one (name, position, normalization); exhaustive; non-trivial = the name is a keyword",
     );
     let mut ctx = CaseCtx::new();
     let mut names: Vec<(String, String)> = REFERENCE_KEYWORDS.iter().map(|k| ("keyword".to_string(), k.to_string())).collect();
@@ -77,6 +86,11 @@ pub fn run(a: &Args) -> i32 {
                         enums: vec![("q".into(), "E".into())], no_serialize: false });
                     ms.push(M { id, kind: kind.clone(), name: n.clone(), rust_norm, enum_ok, sdl: sdl.clone(), query: query.clone(), module_items: mods[0].items.clone() });
                 }
+                // the generator succeeded but the extractor cannot read a construct of the emitted code: a broken tie (the
+                // IR-based oracles cannot run), not a refusal of the input
+                (RealOutcome::Ok(_), None) => {
+                    rep.disagree(json!({"what": "the emitted tokens could not be read into the IR", "file": "c11.rs"}));
+                }
                 (other, _) => {
                     // the schema / query parser may refuse a name (e.g. `true` as an enum value): not the generator's doing
                     let parses = graphql_parser::parse_schema::<String>(&sdl).is_ok() && graphql_parser::parse_query::<String>(&query).is_ok();
@@ -111,7 +125,10 @@ pub fn run(a: &Args) -> i32 {
             ctx.model.ask(&tagged("env-set", vec![atom(&m.id.to_string()), list(m.module_items.clone()), list(vec![])]));
         }
         let ev = if m.enum_ok { json!(m.name) } else { json!("ZZZ") };
-        let payload = json!({ m.name.clone(): 1, "aliased": { m.name.clone(): 2 }, "e": ev });
+        let mut payload = json!({ m.name.clone(): 1, "aliased": { m.name.clone(): 2 }, "e": ev });
+        if let Some(v) = case_variant(&m.name) {
+            payload["variant"] = json!({ v: 7 });
+        }
         reqs.push((m.id, "de".into(), "Q".into(), payload.to_string()));
         meta.push((m.id, "response", payload));
         let vars = json!({ m.name.clone(): 5, "i": { m.name.clone(): 3, "plain": null }, "o": { m.name.clone(): 4 }, "e": ev });
